@@ -52,11 +52,11 @@ PROPERTIES = {
         "explanation": "proved (relative to numpy.interp, uninterpreted): the one-dimensional path -- one call numpy.interp(new, xs, ys, left, right) on the operand's (label, value) pairs sorted ascending, result on exactly the new axis, metadata, operand untouched; bounded stand-in: the N-d path (positions, floor / ceil, fraction times difference: nonlinear real arithmetic), interp_like and Dataset.interp_axis, compared fibre by fibre with numpy.interp on the real code.",
     },
     "C14": {
-        "contracts": [dsops.DatasetOps],
+        "contracts": [dataset.DatasetTake, dataset.DatasetTakeAxis, dataset.DatasetScalarOp, dsops.DatasetOps],
         "level": "other",
-        "min_obligations": 0,
+        "min_obligations": 1500,
         "min_bounded_evaluations": 2000,
-        "explanation": "bounded stand-in only: a differential statement between the Dataset layer and the per-variable DimArray operations (which are under contract in C01-C12, C17, C18), evaluated on the real code over an enumerated family; no obligation is discharged symbolically and none is counted as proved.",
+        "explanation": "proved: indexing (ix / isel / loc / sel / take, single index and lists), take_axis, sort_axis, arithmetic with a scalar in both operand orders and negation, on a Dataset a(x), b(x,y), c(y) -- full postconditions per variable, shared-axes invariant, metadata, operand untouched; bounded stand-in (differential against the DimArray operations): reductions, reindex_axis, interp_axis, Dataset + Dataset, stack_ds, concatenate_ds (they go through Dataset construction / alignment of every variable).",
     },
     "C19": {
         "contracts": [serial.JsonRoundTrip],
